@@ -7,4 +7,4 @@ Set Extraction KeepSingleton.
 From Kardia Require Import Base.Anchor.
 Extraction "../ocaml/C09/model.ml" Anchor.anchor Model.mk_state Model.get Model.total
   Model.apply_transaction64 Model.commit_step64 Model.commit_block64 Model.block_start
-  Model.intrinsic_gas64.
+  Model.intrinsic_gas64 Model.propose_step64 Model.process_block64.
